@@ -24,9 +24,9 @@ import (
 const shimBase = "github.com/esimov/gogu/zzshim/"
 
 var redirect = map[string]string{
-	"sync":                             shimBase + "vsync",
-	"time":                             shimBase + "vtime",
-	"golang.org/x/sync/singleflight":   shimBase + "singleflight",
+	"sync":                           shimBase + "vsync",
+	"time":                           shimBase + "vtime",
+	"golang.org/x/sync/singleflight": shimBase + "singleflight",
 }
 
 func main() {
